@@ -40,30 +40,31 @@ import (
 const invokePath = "/2015-03-31/functions/function/invocations"
 
 type host struct {
-	sc      *Scenario
-	start   time.Time
-	mu      sync.Mutex
-	seq     int64
-	events  []Event
-	lmu     sync.Mutex
-	latches map[string]chan struct{}
-	sup     *fakeSup
-	sb      *rapidcore.SandboxBuilder
-	server  *rapidcore.Server
-	stateFn interop.InternalStateGetter
-	front   *httptest.Server
-	apiAddr string
-	healthy atomic.Bool
-	stage   atomic.Int64
-	ridMu   sync.Mutex
-	ridHist []string
+	sc           *Scenario
+	start        time.Time
+	mu           sync.Mutex
+	seq          int64
+	events       []Event
+	lmu          sync.Mutex
+	latches      map[string]chan struct{}
+	sup          *fakeSup
+	sb           *rapidcore.SandboxBuilder
+	server       *rapidcore.Server
+	stateFn      interop.InternalStateGetter
+	front        *httptest.Server
+	apiAddr      string
+	healthy      atomic.Bool
+	stage        atomic.Int64
+	maxLagUs     atomic.Int64
+	ridMu        sync.Mutex
+	ridHist      []string
 	identsGlobal map[string]string
-	tmpRoot string
-	hookMu  sync.Mutex
-	hookHit map[string]int
-	asyncMu sync.Mutex
-	asyncs  map[string]chan struct{}
-	pending sync.WaitGroup
+	tmpRoot      string
+	hookMu       sync.Mutex
+	hookHit      map[string]int
+	asyncMu      sync.Mutex
+	asyncs       map[string]chan struct{}
+	pending      sync.WaitGroup
 }
 
 func (h *host) record(e Event) int64 {
@@ -469,7 +470,7 @@ func (a *actor) do(st *Step, idx int, call, method, path string, hdr map[string]
 	}
 	t0 := time.Now()
 	a.h.record(Event{Actor: a.id, Proc: a.procName, Kind: "issue", Call: call, Step: idx, Tag: st.Tag, ReqID: reqID, Path: path, Body: bsum, Headers: flatHdr(req.Header)})
-	if st.SigParked != "" || parkWho != "" {
+	if st.SigParked != "" && parkWho != "" {
 		go func() {
 			tick := time.NewTicker(200 * time.Microsecond)
 			defer tick.Stop()
@@ -1306,9 +1307,17 @@ func hostMain() {
 	})
 	h.front = httptest.NewServer(mux)
 
+	var wmu sync.Mutex
+	final := false
 	writeTrace := func(completed bool, note string) {
+		wmu.Lock()
+		defer wmu.Unlock()
+		if final {
+			return
+		}
+		final = completed
 		h.mu.Lock()
-		tr := Trace{Events: append([]Event{}, h.events...), Completed: completed, APIAddr: h.apiAddr, Note: note}
+		tr := Trace{Events: append([]Event{}, h.events...), Completed: completed, APIAddr: h.apiAddr, Note: note, TimeoutMs: sc.Config.TimeoutMs, MaxLagMs: float64(h.maxLagUs.Load()) / 1000}
 		h.mu.Unlock()
 		out, _ := json.Marshal(tr)
 		tmpf := trPath + ".tmp"
@@ -1320,6 +1329,21 @@ func hostMain() {
 		for {
 			time.Sleep(500 * time.Millisecond)
 			writeTrace(false, "partial")
+		}
+	}()
+	// scheduling-lag monitor: how late does a 1 ms sleep wake up? A loaded machine shows up here, so that oracles
+	// never mistake starvation of the whole process for a property of the emulator.
+	go func() {
+		for {
+			t0 := time.Now()
+			time.Sleep(time.Millisecond)
+			lag := time.Since(t0).Microseconds() - 1000
+			for {
+				cur := h.maxLagUs.Load()
+				if lag <= cur || h.maxLagUs.CompareAndSwap(cur, lag) {
+					break
+				}
+			}
 		}
 	}()
 
